@@ -89,6 +89,10 @@ func (x xmlExporter) Map(m value.Map) MapExporter {
 func isSimpleMap(m value.Map) bool {
 	isSimple := true
 	m.Iter(func(key string, e value.Value) bool {
+		if !xmlWriter.IsName(key) {
+			// the key can not be written as the name of an attribute
+			isSimple = false
+		}
 		if _, ok := e.ToMap(); ok {
 			isSimple = false
 		}
